@@ -6,7 +6,7 @@ import time
 import vf
 
 GROUP = "Password"
-THEOREMS = ["C25_iff_partial", "C25_mixed_case_refuted", "C25_migration_invariant_partial", "C25_migration_refuted",
+THEOREMS = ["C25_iff_partial", "C25_mixed_case_refuted", "C25_migration_invariant", "C25_no_upgrade_at_72", "C25_migration_old_refuted",
             "C25_change_keeps_wf", "C25_change_decides", "C25_laws_satisfiable"]
 META = {
     "group": GROUP,
@@ -116,7 +116,7 @@ def gen_scenario(rng, store, migrating):
                 fmt, pw, _ = info[n]
                 # a legacy credential of <= 72 bytes would migrate on the right password: use it rarely here
                 c = rng.choice(candidates(rng, pw if fmt != "raw" else b"s3cret", 4))
-                if fmt in ("sha", "plain") and c == pw and len(pw) <= 72 and not (fmt == "plain" and not plaintext):
+                if fmt in ("sha", "plain") and c == pw and len(pw) < 72 and not (fmt == "plain" and not plaintext):
                     c = pw + b"x"
                 add(n, c)
             else:
@@ -130,7 +130,7 @@ def gen_scenario(rng, store, migrating):
 
 def cheap_right(fmt, pw, plaintext):
     """may the right password be presented without triggering a cost-12 upgrade?"""
-    return fmt == "bcrypt" or len(pw) > 72 or (fmt == "plain" and not plaintext)
+    return fmt == "bcrypt" or len(pw) >= 72 or (fmt == "plain" and not plaintext)
 
 
 def change_block(rng, info, plaintext, steps, add):
@@ -362,7 +362,7 @@ def run(ck):
                 key = (n, p)
                 if n not in upgraded:
                     asked[key] = got
-                elif key in asked and asked[key] != got and not (len(upgraded[n]) == 72 and len(p) > 72):
+                elif key in asked and asked[key] != got:
                     rep("migration-changed-verdict", "(%r, %r) was %s before %r's credential was upgraded and is %s after" % (
                         u, p, asked[key], n, got), k)
                     break
@@ -370,7 +370,7 @@ def run(ck):
             if n is not None and n not in upgraded:
                 fmt, pw, _ = info[n]
                 legacy_match = (fmt == "sha" and p == pw) or (fmt == "plain" and sc["plaintext"] and p == pw)
-                if legacy_match and len(p) <= 72 and n == n.lower():
+                if legacy_match and len(p) < 72 and n == n.lower():
                     upgraded[n] = p
                     dist["upgrades"] += 1
             for name, c in so["stored"].items():
